@@ -21,12 +21,16 @@ func (st *state) sender() {
 	info := fn.Pkg.TypesInfo
 	// every command queued on the target connection by sendTargetCommand, its closures and the
 	// same-package helpers it calls (arguments in the vocabulary of the frame that supplies them)
-	seen := map[token.Pos]bool{}
+	seen := map[string]bool{}
 	collectSends(c, info, fn.Decl.Body, &frame{root: fn.Decl.Body}, 3, map[ast.Node]bool{}, func(pos token.Pos, args []ast.Expr, fr *frame) {
-		if len(args) != 4 || seen[pos] {
+		key := fmt.Sprint(pos)
+		for f := fr; f != nil; f = f.up {
+			key += f.iter
+		}
+		if len(args) != 4 || seen[key] {
 			return
 		}
-		seen[pos] = true
+		seen[key] = true
 		cmd, _ := resolveF(info, fr, args[0], 4)
 		if s, ok := core.StringConst(info, cmd); !ok || !strings.EqualFold(s, "hset") {
 			return
@@ -116,6 +120,17 @@ func collectSends(c *core.Ctx, info *types.Info, region ast.Node, fr *frame, dep
 		if _, isLit := n.(*ast.FuncLit); isLit {
 			return false // a closure is followed where it is called
 		}
+		if rng, isRange := n.(*ast.RangeStmt); isRange {
+			// a loop over a table written as a literal is the sequence of its rows
+			if rows, v := literalRows(info, fr, rng); rows != nil {
+				for k, row := range rows {
+					it := &frame{root: fr.root, bind: map[types.Object]ast.Expr{v: row}, up: fr, closure: true, iter: fmt.Sprintf("#%d", k)}
+					collectSends(c, info, rng.Body, it, depth, onStack, emit)
+				}
+				return false
+			}
+			return true
+		}
 		call, ok := n.(*ast.CallExpr)
 		if !ok {
 			return true
@@ -163,6 +178,60 @@ func collectSends(c *core.Ctx, info *types.Info, region ast.Node, fr *frame, dep
 	})
 }
 
+// literalRows: `for _, v := range <array or slice literal>` (the literal written in place or held
+// in a single-assignment local of the same frame) with an unused or blank key: the rows and v.
+func literalRows(info *types.Info, fr *frame, rng *ast.RangeStmt) ([]ast.Expr, types.Object) {
+	val, ok := rng.Value.(*ast.Ident)
+	if !ok || rng.Tok != token.DEFINE {
+		return nil, nil
+	}
+	if k, ok := rng.Key.(*ast.Ident); !ok || k.Name != "_" {
+		return nil, nil
+	}
+	x, xfr := resolveF(info, fr, rng.X, 3)
+	lit, ok := ast.Unparen(x).(*ast.CompositeLit)
+	if !ok || xfr != fr {
+		return nil, nil
+	}
+	switch info.TypeOf(lit).Underlying().(type) {
+	case *types.Array, *types.Slice:
+	default:
+		return nil, nil
+	}
+	var rows []ast.Expr
+	for _, el := range lit.Elts {
+		if _, keyed := el.(*ast.KeyValueExpr); keyed {
+			return nil, nil
+		}
+		rows = append(rows, el)
+	}
+	v := info.Defs[val]
+	if v == nil || len(rows) == 0 {
+		return nil, nil
+	}
+	// the loop variable is only read in the body
+	assigned := false
+	ast.Inspect(rng.Body, func(n ast.Node) bool {
+		switch s := n.(type) {
+		case *ast.AssignStmt:
+			for _, l := range s.Lhs {
+				if baseObj(info, l) == v {
+					assigned = true
+				}
+			}
+		case *ast.UnaryExpr:
+			if s.Op == token.AND && baseObj(info, s.X) == v {
+				assigned = true
+			}
+		}
+		return true
+	})
+	if assigned {
+		return nil, nil
+	}
+	return rows, v
+}
+
 // forwards: body contains `<conn>.Send(p_k, p_last...)` with p_k the parameter just before the
 // variadic one; returns k.
 func forwards(info *types.Info, params []types.Object, body *ast.BlockStmt) int {
@@ -191,4 +260,22 @@ func forwards(info *types.Info, params []types.Object, body *ast.BlockStmt) int 
 		return -1
 	}
 	return idx
+}
+
+// baseObj: the variable at the base of x, x.f, x[i], *x.
+func baseObj(info *types.Info, e ast.Expr) types.Object {
+	for {
+		switch v := ast.Unparen(e).(type) {
+		case *ast.Ident:
+			return core.ObjOf(info, v)
+		case *ast.SelectorExpr:
+			e = v.X
+		case *ast.IndexExpr:
+			e = v.X
+		case *ast.StarExpr:
+			e = v.X
+		default:
+			return nil
+		}
+	}
 }
